@@ -231,6 +231,9 @@ pub enum BodyOp {
     /// ask the i-th member guard for a reference to the lock it holds (`guard.mutex()` /
     /// `guard.rwlock()`), if the guard type offers that, and keep it past the release
     KeepLockRef(usize),
+    /// scoped calls only: the closure owns a value whose destructor panics - the panic strikes
+    /// wherever the library drops the closure
+    ArmBomb,
 }
 
 #[derive(Clone, PartialEq, Eq, Debug, Serialize, Deserialize)]
